@@ -6,7 +6,7 @@ V = os.path.abspath(os.path.join(os.path.dirname(__file__), ".."))
 NOTE = ("Trusted: Coq 8.16.1 kernel/coqc and vm_compute (no native_compute); no axioms (Print Assumptions of every property "
         "theorem is checked to be 'Closed under the global context' on every run; the one exception is Props/C03float.v, which uses Flocq over Coq's reals "
         "and depends on the standard library's ClassicalDedekindReals.sig_forall_dec, sig_not_dec, FunctionalExtensionality.functional_extensionality_dep and Classical_Prop.classic); the translators py2gallina.py (arithmetic kernel), py2gallina_cache.py (cache decisions), "
-        "py2gallina_revise.py (recursion of ReviseAnno over data frames: its table of pandas idioms), py2gallina_guards.py (refusal guards as boolean functions) and py2gallina_cf.py (queue/event loops as interaction programs); the "
+        "py2gallina_revise.py (recursion of ReviseAnno over data frames: its table of pandas idioms), py2gallina_guards.py (refusal guards as boolean functions), py2gallina_reader.py (loading protocol of DensityData over symbolic file names) and py2gallina_cf.py (queue/event loops as interaction programs); the "
         "correspondence harness (generators, drivers, abstraction, float rule); CPython/pandas/numpy/h5py. "
         "Modelled, not verified: int32/float32 narrowing, pandas/h5py semantics (tied by execution).")
 
@@ -54,8 +54,8 @@ CHECKS = {
              "and the add_* table helpers (gene table in its own row order) compared with the array cell of the labels and with the C01 value; group names differing by case / non-ASCII.",
         design="DESIGN.md 6 C08"),
     "C09": dict(
-        technique="Coq proof (swap of first-occurrence columns for duplicate-free minus names = strand-aware view, induction over the name list) + column-by-column comparison on real files",
-        text="Theorems c09_view/defined/minus/plus_or_unstranded/intra; result files x strand mixtures (all +, all -, '.', mixed, shuffled rows) x every constructor (incl. a GeneData in another row order), "
+        technique="Coq proof (swap of first-occurrence columns for duplicate-free minus names = strand-aware view, induction over the name list) + _swap_strand_vals / _index_of_gene / DensityData.__init__ translated from /repo on every run and proved equal to the model + column-by-column comparison on real files",
+        text="Theorems c09_view/defined/minus/plus_or_unstranded/intra; c09_code_swap_loop: the exchange loop of the code, as translated, is the model's swap_all; result files x strand mixtures (all +, all -, '.', mixed, shuffled rows) x every constructor (incl. a GeneData in another row order), "
              "each gene column of both TE levels classified against the raw arrays and compared with the model; raw file hashed before/after.",
         design="DESIGN.md 6 C09"),
     "C10": dict(
@@ -101,9 +101,9 @@ CHECKS = {
              "renamed pair run twice in one directory through the CLI: first run vs re-run (exit, labels, values), renamed vs original through the inverse renaming, labels verbatim, model on the renamed pair.",
         design="DESIGN.md 6 C14"),
     "C15": dict(
-        technique="Coq proof (invariant of the load/crash state machine over all histories) + histories with kills and exceptions on real files",
-        text="Theorems c15_idempotent/raw_untouched over histories of loads through every constructor interleaved with loads interrupted at any step; legacy behaviours refuted. "
-             "Exhaustive constructor sequences (length <= 2 quick / 3 thorough) and first loads killed (fork + os._exit, with/without HDF5 flush) or interrupted by an exception at every step, followed by loads, on real files.",
+        technique="Coq proof (invariant of the load/crash state machine over all histories) + DensityData.__init__ / verify_h5_cache translated from /repo on every run over symbolic file names and proved to act and serve as the model's load + histories with kills, exceptions and interleaved loads on real files",
+        text="Theorems c15_idempotent/raw_untouched over histories of loads through every constructor interleaved with loads interrupted at any step; c15_code_constructor / verify_h5_cache / never_partial_under_trusted_name about the code as translated; legacy behaviours refuted. "
+             "Exhaustive constructor sequences (length <= 2 quick / 3 thorough) and first loads killed (fork + os._exit, with/without HDF5 flush) or interrupted by an exception at every step, followed by loads, on real files; two loads of different files of one directory interleaved at their start / copy / publish steps.",
         design="DESIGN.md 6 C15"),
     "C16": dict(
         technique="Coq proof (pairing by stored chromosome id: sound, complete, rejects every mismatch; legacy sorted-name pairing refuted by computation) + name-set pools on real directories",
